@@ -321,7 +321,18 @@ ADDENDA7 = {   # round 13
     "C19": "a time slice whose bounds lie outside the run returns rows [0 : counter + 1] on every path.",
     "C20": "the callbacks are dropped only when the argument is None.",
 }
-for _add in (ADDENDA2, ADDENDA3, ADDENDA4, ADDENDA5, ADDENDA6, ADDENDA7):
+ADDENDA8 = {   # round 14
+    "C02": "the stage time reaches the right-hand side without a dtype cast; the stage residual evaluates the right-hand side it was called with.",
+    "C03": "len(system) is counter + 1 (re-judged).",
+    "C04": "the proposal store follows the nested integrate() call of a terminal event.",
+    "C05": "every recorded row is an integrator result (no state read from the interpolant).",
+    "C09": "the terminal truncation reads no snapshot taken before the arrays were ordered.",
+    "C12": "every handler that lets an exception out of integrate() records the status first, whatever its type.",
+    "C14": "products of function values are followed through locals.",
+    "C15": "a tensor-shaped user Jacobian is flattened to (fdim, xdim) without transposition in every solver.",
+    "C19": "every piece of a rolled-back step is removed (piece balance re-judged).",
+}
+for _add in (ADDENDA2, ADDENDA3, ADDENDA4, ADDENDA5, ADDENDA6, ADDENDA7, ADDENDA8):
     for _k, _v in _add.items():
         ADDENDA[_k] = (ADDENDA[_k] + " " + _v[0].upper() + _v[1:]) if _k in ADDENDA else "Also decided: " + _v
 for _k, _v in ADDENDA.items():
